@@ -9,6 +9,7 @@
  * handler in `wrap` (same flags, same mask), which calls it and then bumps a counter, so `raise` can wait
  * until the handler has really finished.  Quiescence of a loop = two round trips of a no-op command
  * through its uv_async (the signal pipe is read in the same iteration that serves the first one). */
+#include <dlfcn.h>
 #include <pthread.h>
 #include <semaphore.h>
 #include <signal.h>
@@ -25,7 +26,24 @@ static uv_loop_t* loops[MAXL];
 static pthread_t thr[MAXL];
 static uv_async_t wake[MAXL];
 static sem_t done[MAXL], started[MAXL];
-static struct { char op[16]; int h, sig, rc, ok; } cmd[MAXL];
+static struct { char op[16]; int h, sig, rc, ok, pause; } cmd[MAXL];
+/* `race`: the first command is held inside its first sigaction(act != NULL) call - for libuv that is
+ * inside the critical section of the signal lock - while the second one is issued on another loop */
+static _Thread_local int pause_armed;
+static sem_t evt, release_sem;
+static atomic_int paused;
+
+int sigaction(int sig, const struct sigaction* act, struct sigaction* old) {
+  static int (*real)(int, const struct sigaction*, struct sigaction*);
+  if (!real) real = (int (*)(int, const struct sigaction*, struct sigaction*)) dlsym(RTLD_NEXT, "sigaction");
+  if (act != NULL && pause_armed) {
+    pause_armed = 0;
+    atomic_store(&paused, 1);
+    sem_post(&evt);
+    sem_wait(&release_sem);
+  }
+  return real(sig, act, old);
+}
 static char* logbuf[MAXL]; static size_t loglen[MAXL], logcap[MAXL];
 static uv_signal_t* hs[MAXH];
 static int hloop[MAXH], freed[MAXH];
@@ -76,8 +94,16 @@ static void signal_cb(uv_signal_t* h, int signum) {
 static void wake_cb(uv_async_t* a) {
   int L = (int) (a - wake);
   int i = cmd[L].h;
+  int wants_pause = cmd[L].pause;
   cmd[L].ok = 0;
+  pause_armed = wants_pause;
   if (!strcmp(cmd[L].op, "nop")) cmd[L].ok = 1;
+  else if (!strcmp(cmd[L].op, "ref") || !strcmp(cmd[L].op, "unref")) {
+    if (i >= 0 && i < nh && !freed[i]) {
+      if (cmd[L].op[0] == 'r') uv_ref((uv_handle_t*) hs[i]); else uv_unref((uv_handle_t*) hs[i]);
+      cmd[L].rc = 0; cmd[L].ok = 1;
+    }
+  }
   else if (i >= 0 && i < nh && !freed[i] && !uv_is_closing((uv_handle_t*) hs[i])) {
     cmd[L].ok = 1;
     if (!strcmp(cmd[L].op, "start")) cmd[L].rc = uv_signal_start(hs[i], signal_cb, cmd[L].sig);
@@ -85,9 +111,13 @@ static void wake_cb(uv_async_t* a) {
     else if (!strcmp(cmd[L].op, "stop")) cmd[L].rc = uv_signal_stop(hs[i]);
     else if (!strcmp(cmd[L].op, "close")) { uv_close((uv_handle_t*) hs[i], close_cb); cmd[L].rc = 0; }
     else cmd[L].ok = 0;
+    pause_armed = 0;
     rewrap();
   }
+  pause_armed = 0;
+  cmd[L].pause = 0;
   sem_post(&done[L]);
+  if (wants_pause) sem_post(&evt);
 }
 
 static void* loop_main(void* arg) {
@@ -98,11 +128,48 @@ static void* loop_main(void* arg) {
 }
 
 static int call(int L, const char* op, int h, int sig, int* rc) {
-  snprintf(cmd[L].op, sizeof cmd[L].op, "%s", op); cmd[L].h = h; cmd[L].sig = sig;
+  snprintf(cmd[L].op, sizeof cmd[L].op, "%s", op); cmd[L].h = h; cmd[L].sig = sig; cmd[L].pause = 0;
   uv_async_send(&wake[L]);
   sem_wait(&done[L]);
   if (rc) *rc = cmd[L].rc;
   return cmd[L].ok;
+}
+
+static void post(int L, const char* op, int h, int sig, int pause) {
+  snprintf(cmd[L].op, sizeof cmd[L].op, "%s", op); cmd[L].h = h; cmd[L].sig = sig; cmd[L].pause = pause;
+  uv_async_send(&wake[L]);
+}
+
+static int valid_op(const char* op) {
+  return !strcmp(op, "start") || !strcmp(op, "oneshot") || !strcmp(op, "stop") || !strcmp(op, "close") ||
+         !strcmp(op, "ref") || !strcmp(op, "unref");
+}
+
+static void print_ret(int L) { if (cmd[L].ok) printf("ret %d\n", cmd[L].rc); else printf("ret skip\n"); }
+
+/* race A | B on different loops: A is held at its sigaction call while B is given 30 ms to run */
+static void race(const char* op1, int h1, int s1, const char* op2, int h2, int s2) {
+  int A = hloop[h1], B = hloop[h2];
+  atomic_store(&paused, 0);
+  post(A, op1, h1, s1, 1);
+  sem_wait(&evt);
+  if (atomic_load(&paused)) {
+    struct timespec ts;
+    int got;
+    post(B, op2, h2, s2, 0);
+    clock_gettime(CLOCK_REALTIME, &ts);
+    ts.tv_nsec += 30 * 1000000; if (ts.tv_nsec >= 1000000000) { ts.tv_sec++; ts.tv_nsec -= 1000000000; }
+    got = sem_timedwait(&done[B], &ts) == 0;
+    sem_post(&release_sem);
+    sem_wait(&done[A]); sem_wait(&evt);
+    if (!got) sem_wait(&done[B]);
+  } else {
+    sem_wait(&done[A]);
+    post(B, op2, h2, s2, 0);
+    sem_wait(&done[B]);
+  }
+  print_ret(A);      /* note: A's slot is intact, B used another loop's slot */
+  print_ret(B);
 }
 
 static void quiesce_and_print(void) {
@@ -121,8 +188,8 @@ static void quiesce_and_print(void) {
   printf("\nobs handles");
   for (int i = 0; i < nh; i++) {
     if (freed[i]) { printf(" %d:x", i); continue; }
-    printf(" %d:%d%s:%d:%u:%u", i, uv_is_active((uv_handle_t*) hs[i]), uv_is_closing((uv_handle_t*) hs[i]) ? "c" : "",
-           hs[i]->signum, hs[i]->caught_signals, hs[i]->dispatched_signals);
+    printf(" %d:%d%s:%d:%u:%u:%c", i, uv_is_active((uv_handle_t*) hs[i]), uv_is_closing((uv_handle_t*) hs[i]) ? "c" : "",
+           hs[i]->signum, hs[i]->caught_signals, hs[i]->dispatched_signals, uv_has_ref((uv_handle_t*) hs[i]) ? 'r' : 'u');
   }
   printf("\n");
 }
@@ -132,7 +199,9 @@ int main(void) {
   sigset_t set;
   setvbuf(stdout, NULL, _IOLBF, 0);
   sigemptyset(&set);
-  for (int j = 0; j < NSIGS; j++) sigaddset(&set, SIGS[j]);
+  for (int j = 0; j < NSIGS; j++) { signal(SIGS[j], SIG_DFL); sigaddset(&set, SIGS[j]); }
+  pthread_sigmask(SIG_UNBLOCK, &set, NULL);
+  sem_init(&evt, 0, 0); sem_init(&release_sem, 0, 0);
   while (fgets(line, sizeof line, stdin)) {
     char op[16]; int i, sig = 0;
     if (!strncmp(line, "init ", 5)) {
@@ -163,9 +232,20 @@ int main(void) {
         printf(atomic_load(&handled) == before ? "raise lost\n" : "raised\n");
       }
       quiesce_and_print();
+    } else if (!strncmp(line, "race ", 5) && nl) {
+      char op1[16], op2[16], a1[64] = "", a2[64] = ""; int h1, h2, s1 = 0, s2 = 0;
+      char* bar = strchr(line, '|');
+      if (!bar) { printf("bad-op\n"); continue; }
+      *bar = 0;
+      if (sscanf(line + 5, "%15s h%d %d", op1, &h1, &s1) < 2 || sscanf(bar + 1, "%15s h%d %d", op2, &h2, &s2) < 2 ||
+          !valid_op(op1) || !valid_op(op2) || h1 < 0 || h1 >= nh || h2 < 0 || h2 >= nh || hloop[h1] == hloop[h2]) { printf("bad-op\n"); continue; }
+      (void) a1; (void) a2;
+      race(op1, h1, s1, op2, h2, s2);
+      quiesce_and_print();
     } else if (sscanf(line, "%15s h%d %d", op, &i, &sig) >= 2 && i >= 0 && i < nh && nl) {
       int rc = 0;
-      if (strcmp(op, "start") && strcmp(op, "oneshot") && strcmp(op, "stop") && strcmp(op, "close")) { printf("bad-op\n"); continue; }
+      if (strcmp(op, "start") && strcmp(op, "oneshot") && strcmp(op, "stop") && strcmp(op, "close") &&
+          strcmp(op, "ref") && strcmp(op, "unref")) { printf("bad-op\n"); continue; }
       if (call(hloop[i], op, i, sig, &rc)) printf("ret %d\n", rc); else printf("ret skip\n");
       quiesce_and_print();
     } else if (line[0] != '\n') printf("bad-op\n");
